@@ -81,8 +81,7 @@ def _run_variant(args):
             status = "ok" if err is None else f"analysis-error: {err}"
         except Exception as e:  # noqa
             status = f"crash: {type(e).__name__}: {e}"
-        known = {k["key"] for k in common.load_known().get("known", []) if k["property"] == pid}
-        new = [f for f in res.findings if f.key not in known]
+        new = res.new_findings()
         if status != "ok" and not new:
             return (name, expect, "error", status[:300])
         return (name, expect, "fired" if new else "silent", "; ".join(f"[{f.rule}] {f.func}: {f.construct[:60]}" for f in new[:3]))
@@ -112,7 +111,7 @@ def run_for(pid, mod, seed=0):
         not_req = {}
     for d in sorted(glob.glob(os.path.join(VERIF, "twins", "*", "patch.diff"))):
         tid = os.path.basename(os.path.dirname(d))
-        if tid in not_req and pid == tid.split("-")[0]:
+        if tid in not_req and pid in not_req[tid].get("checks", []):
             continue
         items.append((pid, f"twinpatch:{tid}", "patch", d, "silent", base))
     out = {"variants": len(items), "fired": 0, "silent_ok": 0, "skipped": [], "failed": [], "details": []}
